@@ -88,7 +88,11 @@ class Executor:
             self.mid[id(m)] = len(self.maps)
             return c, {"views": self.views()}
         if call == "lookup":
-            return c, self.lookup()
+            try:
+                return c, self.lookup()
+            except Exception as e:  # a query that raises cannot agree with the specification
+                n = len(self.maps)
+                return c, {"all": [[["error", type(e).__name__]]] * n, "decode": [[]] * n, "find": [[]] * n}
         m = self.maps[c["m"] - 1]
         c.update(ok=1, start=0, stop=0, ratio=0, ret=0)
         try:
@@ -123,7 +127,7 @@ class Executor:
                 PeripheralInfo(memory_map=m)
             else:
                 raise common.MachineryError(f"unknown call {call}")
-        except (ValueError, TypeError) as e:
+        except Exception as e:      # any exception is "the call raised"; the class is logged
             c["ok"] = 0
             c["exc"] = type(e).__name__
         return c, {"views": self.views()}
@@ -240,3 +244,121 @@ def random_history(r, length):
             do({"call": "lookup"})
     do({"call": "lookup"})
     return steps
+
+
+# ---------------------------------------------------------------------------------------------
+# the checks
+# ---------------------------------------------------------------------------------------------
+from . import tlc, tracecheck          # noqa: E402
+from .common import Run                # noqa: E402
+from .hw import pmap                   # noqa: E402
+
+MC = """SPECIFICATION Spec
+CONSTANTS MaxItems = {items}
+  Export = FALSE
+  RootAls = {als}
+CONSTRAINT Bound
+ACTION_CONSTRAINT Props
+CHECK_DEADLOCK FALSE
+"""
+INVS = {
+    "C02": ["Disjoint", "InBounds", "MapAligned"],
+    "C03": ["LookupCoherent", "Disjoint"],
+    "C18": ["PathsDistinct", "VisiblePrefixFree"],
+}
+WITNESS = {"C02": "NoDenseWindowEver", "C03": "NoDenseWindowEver", "C18": "NoAnonymousAbsorb"}
+
+
+def _hist_job(job):
+    kind, arg = job
+    if kind == "random":
+        seed, length = arg
+        return {"cfg": {"seed": seed}, "steps": random_history(rng("mm-hist", seed), length)}
+    key, calls = arg
+    return {"cfg": {"key": key}, "steps": run_history(calls)}
+
+
+def report(run, traces, fails, tag):
+    for fl in fails:
+        tr = traces[fl["trace"]]
+        t = fl["t"]
+        call = tr["steps"][t - 1]["i"]
+        run.report(f"{tag}:{fl['err']}:{json.dumps(call, sort_keys=True)[:160]}",
+                   f"MemoryMap history rejected at call {t} ({call.get('call')}), clause {fl['err']}",
+                   {"history": [s["i"] for s in tr["steps"][:t]], "failing_call": call,
+                    "observed": tr["steps"][t - 1]["o"], "clause": fl["err"]})
+
+
+CLAUSES = {   # which trace-validation clauses belong to which property
+    "C02": None,      # all clauses
+    "C03": {"all_resources()", "decode_address()", "decode vs all_resources", "find_resource()"},
+    "C18": {"accepted a call that must be refused", "refused a legal call", "resources()", "windows()",
+            "all_resources()"},
+}
+
+
+def main(prop, tier):
+    run = Run(prop, tier)
+    thorough = tier == "thorough"
+    run.cov["rule"] = (
+        "leg A: TLC explores MemoryMap_MC (root aw=3 with alignment 0/1, a ratio-1 and a ratio-2/sparse "
+        "window candidate, sizes 0-3, every explicit address or implicit, per-call alignments, invalid "
+        "arguments, colliding names, align_to, freeze, bridge) up to a bounded number of placed items, "
+        "both outcomes where the specification allows either; leg B: TLC -simulate behaviours of that model "
+        "replayed call by call on real MemoryMap objects; leg C: seeded random histories over up to 7 maps "
+        "(aw<=6, ratio 2/4 dense, sparse and ratio-1 windows, names of 1-3 parts incl. '0' vs 0); after every "
+        "call resources()/windows()/cursor probe of every map are logged, and on lookup calls "
+        "all_resources(), find_resource() of every object (and two never added) and decode_address() of "
+        "EVERY address; TLC validates every step against MemoryMap.tla. A case is one call; non-trivial = "
+        "an add_resource/add_window/align_to call (accepted or refused).")
+    run.assumptions += ["align_to(0) is used as a behaviourally neutral probe of the placement cursor",
+                        "each resource object is added to at most one map of a tree (C03's 'exactly once')"]
+    # ---- leg A
+    items = 3 if thorough and prop == "C02" else 2
+    als = "{0, 1}" if prop == "C02" or thorough else "{0}"
+    cfg = MC.format(items=items, als=als) + "VIEW View\n" + "".join(f"INVARIANT {i}\n" for i in INVS[prop])
+    res = tlc.run("MemoryMap_MC", cfg, timeout=3000)
+    tlc.require_ok(res, "MemoryMap_MC")
+    if not res.ok:
+        raise common.MachineryError("MemoryMap specification violates its own properties: "
+                                    + str(res.assert_payload or res.errors) + res.raw[-2000:])
+    run.add_tlc(res, f"MemoryMap_MC MaxItems={items} RootAls={als}: {', '.join(INVS[prop])} + per-call assertions")
+    w = tlc.run("MemoryMap_MC", MC.format(items=2, als="{0}") + f"VIEW View\nINVARIANT {WITNESS[prop]}\n",
+                timeout=900)
+    if w.violated != WITNESS[prop]:
+        raise common.MachineryError(f"vacuity witness {WITNESS[prop]} was not refuted")
+    run.cov["vacuity_witnesses_refuted"] = [WITNESS[prop]]
+    # ---- leg B: TLC-generated behaviours replayed on real objects
+    num, depth = (400, 14) if thorough else (120, 10)
+    sres, behs = tlc.simulate_behaviours("MemoryMap_MC", MC.format(items=4, als="{0, 1}"), num=num, depth=depth,
+                                         wanted=("key", "lastin"), seed=common.seed() + 11)
+    run.add_tlc(sres, "MemoryMap_MC -simulate (behaviours for replay)")
+    jobs = []
+    for b in behs:
+        if len(b) < 2:
+            continue
+        al = b[0]["key"]
+        prelude = [{"call": "new", "aw": 3, "dw": 16, "al": al}, {"call": "new", "aw": 1, "dw": 16, "al": 0},
+                   {"call": "new", "aw": 2, "dw": 8, "al": 1}]
+        calls = prelude + [s["lastin"] for s in b[1:]] + [{"call": "lookup"}]
+        jobs.append(("replay", (al, calls)))
+    # ---- leg C: random histories
+    n, length = (1500, 60) if thorough else (300, 40)
+    base = common.seed() * 100000
+    jobs += [("random", (base + k, length)) for k in range(n)]
+    traces = pmap(_hist_job, jobs)
+    fails = tracecheck.validate("MemoryMap_Trace", "Mm", traces, run, "API histories (legs B and C)")
+    mine = CLAUSES[prop]
+    fails = [f for f in fails if mine is None or f["err"] in mine]
+    report(run, traces, fails, "history")
+    for tr in traces:
+        run.count(len(tr["steps"]))
+        for s in tr["steps"]:
+            c = s["i"]
+            run.distinct(json.dumps({k: v for k, v in c.items() if k not in ("start", "stop", "ret", "exc")},
+                                    sort_keys=True), c["call"] in ("add_resource", "add_window", "align_to"))
+    run.cov["behaviours_replayed"] = sum(1 for j in jobs if j[0] == "replay")
+    run.cov["random_histories"] = n
+    ex = traces[-1]["steps"]
+    run.sample({"calls": [s["i"] for s in ex[:6]]})
+    return run.finish()
